@@ -6,7 +6,6 @@ HERE = os.path.dirname(os.path.abspath(__file__))
 NA = {
  'C03': 'Optimality "given enough iterations" is a statement about the limit of a numerical iteration against an external optimum; no clause of it is visible in the shape of the code (static analysis only; see DESIGN.md section 4).',
  'C11': 'Row counts, in-domain values, zero-support and N-independent rounding error are relations between runtime arrays; in the pinned environment synthetic_data raises for a pandas-version reason invisible in the source.',
- 'C12': 'Running intersection for every graph and elimination order is a graph-theoretic theorem about triangulation + spanning tree, not a pairing/ordering/ownership/typestate property; pinning the present networkx calls would be a frozen fragment.',
  'C17': 'The fixed point of the norm-product iteration versus the optimum of a convex programme solved by an independent solver is a numerical comparison.',
 }
 
